@@ -281,7 +281,7 @@ def correspondence(args_e, args_t):
   return m
 
 
-def check_same_outcome(ctx, tag, args_e, args_t, corr, out_e, out_t, desc):
+def check_same_outcome(ctx, tag, args_e, args_t, corr, out_e, out_t, desc, check_identity=True):
   """State, identity and return-value agreement between the eager run and the transformed run."""
   from vf.gen import nnx_graph as G
   from vf import core
@@ -296,7 +296,7 @@ def check_same_outcome(ctx, tag, args_e, args_t, corr, out_e, out_t, desc):
     ctx.check(True, 'state:' + tag)
   # identity: wherever the eager graph holds an ORIGINAL object, the transformed graph must hold the corresponding caller object
   ok_id = True
-  for a_e, a_t in zip(args_e, args_t):
+  for a_e, a_t in (zip(args_e, args_t) if check_identity else ()):
     ie, it = G.identities(a_e), G.identities(a_t)
     for p, i in ie.items():
       if i in corr and it.get(p) is not None and it[p] != corr[i]:
@@ -317,7 +317,7 @@ def check_same_outcome(ctx, tag, args_e, args_t, corr, out_e, out_t, desc):
           pairs.add((seen[i], (ai, p)))
         seen.setdefault(i, (ai, p))
     return pairs
-  ctx.check(shared_pairs(args_e) == shared_pairs(args_t), 'identity:cross_argument_aliasing:' + tag,
+  ctx.check(not check_identity or shared_pairs(args_e) == shared_pairs(args_t), 'identity:cross_argument_aliasing:' + tag,
             lambda: dict(case=desc, eager=sorted(map(repr, shared_pairs(args_e)))[:6], transformed=sorted(map(repr, shared_pairs(args_t)))[:6]))
   # return value
   def split_out(o):
@@ -428,7 +428,9 @@ def case_jit_like(ctx, rng, kind, desc_base):
         return
       ctx.check(False, 'transform_raised:' + tag, lambda: dict(case=d, error=repr(t_err)[:600]))
       return
-    check_same_outcome(ctx, tag, args_e, args_t, corr, out_e, out_t, d)
+    # cached_partial documents that cached graph nodes are cloned (only their Variables are the caller's): a structural program
+    # that re-binds a cached node elsewhere legitimately binds the clone, so Module identity is not demanded there
+    check_same_outcome(ctx, tag, args_e, args_t, corr, out_e, out_t, d, check_identity=not (kind == 'cached_partial' and structural))
     # caller-side structural edit between calls (forces a retrace that must see the new structure)
     if call + 1 < n_calls and rng.random() < 0.5 and kind == 'jit':
       C = __import__('vf.gen.nnx_graph', fromlist=['x']).classes()
